@@ -1,5 +1,6 @@
-// C11 conformance harness: runs scripted runs through the real TestRegistry with run-in-separate-process set, so that
-// every test goes through the real PlatformSpecificRunTestInASeperateProcess (Platforms/Gcc/UtestPlatform.cpp).
+// C11 conformance harness: executes scripted histories of one real TestRegistry (tests of several kinds added, the options
+// run-in-separate-process / run-ignored set, any number of runs, tests added and options set between runs), so that the
+// tests of a separate-process run go through the real PlatformSpecificRunTestInASeperateProcess (Platforms/Gcc/UtestPlatform.cpp).
 // The PlatformSpecificFork / PlatformSpecificWaitPid seams are replaced by
 //   stub mode: scripted outcomes (fork ok/fail; waitpid EINTR, other error, or a status word built with the libc
 //              encodings).  The pid handed to the parent is the pid of a REAL, harmless child of this program (blocked
@@ -7,12 +8,15 @@
 //              kill(pid, SIGCONT) directly;
 //   real mode: the real fork()/waitpid(), observed: the child executes a scripted behaviour (raise a signal, _exit a
 //              status, fail a check, stop itself) at a scripted place (setup, body, teardown, plugin pre/post action).
-// One ndjson log line per step of the parent: begin, teststart, fork, wait (with the decoded outcome), endtest (failures
-// recorded for the test, classified; number of waitpid calls; SIGCONTs seen; real children left un-reaped), end (totals).
+// One ndjson log line per call on the registry (addtest, setsep, setri) and per step of the parent: begin (tests the
+// registry holds), teststart (number, kind of the shell, scripted behaviour), fork, wait (with the decoded outcome), endtest
+// (failures recorded for the test, classified; number of waitpid calls; SIGCONTs seen; real children left un-reaped; whether
+// any code of the test - plugin action, setup, body, teardown - executed in the runner process), end (totals).
 // It never judges.
 // Usage: sepproc <script.tsv> <log.ndjson>            sepproc --probe-retries   (prints the number of waitpid calls
 //        the parent makes when every call is interrupted; 2001 = no bound found)
-// Script lines (TSV): begin N stub|real | teststart act arg place | fork ok|fail | wait kind arg | endtest | end | reset
+// Script lines (TSV): addtest plain|ignored | setsep | setri | begin N stub|real | teststart act arg place (behaviour of the
+//        i-th test of this run, in running order) | fork ok|fail | wait kind arg | endtest | end (= run now) | reset (new registry)
 #include "vh.h"
 #include <sys/types.h>
 #include <sys/wait.h>
@@ -42,6 +46,8 @@ static int g_waits = 0, g_conts = 0, g_pendingStops = 0;
 static std::vector<std::string> g_fail;   // failures recorded for the running test, classified
 static int g_probeCalls = -1;         // >= 0: probe mode, count waitpid calls
 static std::vector<pid_t> g_kids;     // real children forked so far and not yet seen to be gone
+static bool g_inRunner = false;       // some code of the running test executed in the runner process
+static void mark_place() { if (getpid() == g_self) g_inRunner = true; }
 
 // children the parent code did not reap (still running, stopped, or zombies): kill and reap them, return how many
 static int sweep_kids()
@@ -68,9 +74,14 @@ static void start_helper()
         prctl(PR_SET_PDEATHSIG, SIGKILL);
         signal(SIGCONT, helper_cont);
         close(g_contpipe[0]);
+        char r = 'r'; ssize_t w = write(g_contpipe[1], &r, 1); (void) w;    // ready: from now on every SIGCONT is reported
         for (;;) { pause(); if (getppid() == 1) _exit(0); }
     }
     close(g_contpipe[1]);
+    // wait until the helper has its handler in place (a SIGCONT sent before that would be discarded by the default disposition)
+    char r = 0;
+    while (read(g_contpipe[0], &r, 1) < 0 && errno == EINTR) {}
+    if (r != 'r') abort();
 }
 static void stop_helper()
 {
@@ -191,21 +202,36 @@ static void act_now(const Behaviour& b, bool terminating, UtestShell* sh, TestRe
     }
 }
 
+struct Scripted                       // what a scripted shell carries, whatever its class
+{
+    Behaviour b; std::string nm;
+    virtual ~Scripted() {}
+    virtual const char* kind() const = 0;
+    void name(UtestShell* sh, int i)
+    { char t[32]; snprintf(t, sizeof t, "t%d", i); nm = t; sh->setGroupName("G"); sh->setTestName(nm.c_str()); sh->setFileName("script.cpp"); sh->setLineNumber(1); }
+};
 class ScriptTest : public Utest
 {
     const Behaviour* b_;
 public:
     explicit ScriptTest(const Behaviour* b) : b_(b) {}
-    void setup() CPPUTEST_OVERRIDE { if (b_->place == "setup") act_now(*b_, true, UtestShell::getCurrent(), NULL); }
-    void testBody() CPPUTEST_OVERRIDE { if (b_->place == "body") act_now(*b_, true, UtestShell::getCurrent(), NULL); }
-    void teardown() CPPUTEST_OVERRIDE { if (b_->place == "teardown") act_now(*b_, true, UtestShell::getCurrent(), NULL); }
+    void setup() CPPUTEST_OVERRIDE { mark_place(); if (b_->place == "setup") act_now(*b_, true, UtestShell::getCurrent(), NULL); }
+    void testBody() CPPUTEST_OVERRIDE { mark_place(); if (b_->place == "body") act_now(*b_, true, UtestShell::getCurrent(), NULL); }
+    void teardown() CPPUTEST_OVERRIDE { mark_place(); if (b_->place == "teardown") act_now(*b_, true, UtestShell::getCurrent(), NULL); }
 };
-class ScriptShell : public UtestShell
+class ScriptShell : public UtestShell, public Scripted          // TEST
 {
 public:
-    Behaviour b; std::string nm;
-    ScriptShell(const Behaviour& bb, int i) : UtestShell(), b(bb)
-    { char t[32]; snprintf(t, sizeof t, "t%d", i); nm = t; setGroupName("G"); setTestName(nm.c_str()); setFileName("script.cpp"); setLineNumber(1); }
+    explicit ScriptShell(int i) : UtestShell() { name(this, i); }
+    ScriptShell(const Behaviour& bb, int i) : UtestShell() { b = bb; name(this, i); }
+    const char* kind() const CPPUTEST_OVERRIDE { return "plain"; }
+    Utest* createTest() CPPUTEST_OVERRIDE { return new ScriptTest(&b); }
+};
+class ScriptIgnoredShell : public IgnoredUtestShell, public Scripted   // IGNORE_TEST
+{
+public:
+    explicit ScriptIgnoredShell(int i) : IgnoredUtestShell() { name(this, i); }
+    const char* kind() const CPPUTEST_OVERRIDE { return "ignored"; }
     Utest* createTest() CPPUTEST_OVERRIDE { return new ScriptTest(&b); }
 };
 class ActionPlugin : public TestPlugin
@@ -213,9 +239,9 @@ class ActionPlugin : public TestPlugin
 public:
     ActionPlugin() : TestPlugin("ActionPlugin") {}
     void preTestAction(UtestShell& t, TestResult& r) CPPUTEST_OVERRIDE
-    { ScriptShell* s = dynamic_cast<ScriptShell*>(&t); if (s && s->b.place == "pre") act_now(s->b, false, &t, &r); }
+    { Scripted* s = dynamic_cast<Scripted*>(&t); if (s) { mark_place(); if (s->b.place == "pre") act_now(s->b, false, &t, &r); } }
     void postTestAction(UtestShell& t, TestResult& r) CPPUTEST_OVERRIDE
-    { ScriptShell* s = dynamic_cast<ScriptShell*>(&t); if (s && s->b.place == "post") act_now(s->b, false, &t, &r); }
+    { Scripted* s = dynamic_cast<Scripted*>(&t); if (s) { mark_place(); if (s->b.place == "post") act_now(s->b, false, &t, &r); } }
 };
 
 // ---------------------------------------------------------------- probe in front of the real TestResult
@@ -239,12 +265,12 @@ public:
     void currentTestStarted(UtestShell* t) CPPUTEST_OVERRIDE
     {
         if (getpid() == g_self) {
-            g_test++; g_waits = 0; g_conts = 0; g_pendingStops = 0; g_fail.clear();
+            g_test++; g_waits = 0; g_conts = 0; g_pendingStops = 0; g_fail.clear(); g_inRunner = false;
             // scripted outcomes the previous test did not consume are not handed to this one
             if (g_test >= 2 && (size_t) g_test - 2 < g_testEnd.size()) g_qpos = g_testEnd[(size_t) g_test - 2];
-            ScriptShell* s = dynamic_cast<ScriptShell*>(t);
-            fprintf(g_log, "{\"op\":\"teststart\",\"i\":%d,\"act\":\"%s\",\"arg\":%d}\n", g_test,
-                    g_real && s ? s->b.act.c_str() : "any", g_real && s ? s->b.arg : 0);
+            Scripted* s = dynamic_cast<Scripted*>(t);
+            fprintf(g_log, "{\"op\":\"teststart\",\"i\":%d,\"kind\":\"%s\",\"act\":\"%s\",\"arg\":%d}\n", g_test, s ? s->kind() : "?",
+                    s ? s->b.act.c_str() : "any", s ? s->b.arg : 0);
         }
         TestResult::currentTestStarted(t);
     }
@@ -265,7 +291,7 @@ public:
         int left = g_real ? sweep_kids() : 0;     // a child the parent did not reap
         fprintf(g_log, "{\"op\":\"endtest\",\"left\":%d,\"msgs\":[", left);
         for (size_t i = 0; i < g_fail.size(); i++) fprintf(g_log, "%s%s", i ? "," : "", g_fail[i].c_str());
-        fprintf(g_log, "],\"waits\":%d,\"conts\":%d}\n", g_waits, g_real ? -1 : g_conts);
+        fprintf(g_log, "],\"waits\":%d,\"conts\":%d,\"inrunner\":%s}\n", g_waits, g_real ? -1 : g_conts, g_inRunner ? "true" : "false");
         fflush(g_log);
     }
 };
@@ -284,26 +310,44 @@ static bool tty_stops_work()
     return stopped;
 }
 
-static void run_execution(int n, std::vector<Behaviour>& bs)
+// the registry under test and what was put into it; lives from the first call after a `reset' to the next `reset'
+struct Registry
 {
-    g_test = 0; g_qpos = 0;
     TestRegistry reg;
     ActionPlugin plugin;
-    reg.installPlugin(&plugin);
-    reg.setRunTestsInSeperateProcess();
     std::vector<UtestShell*> shells;
-    for (int i = 0; i < n; i++) shells.push_back(new ScriptShell(bs[(size_t) i], i + 1));
-    for (size_t i = shells.size(); i-- > 0;) reg.addTest(shells[i]);
+    Registry() { reg.installPlugin(&plugin); }
+    ~Registry() { for (size_t i = 0; i < shells.size(); i++) delete shells[i]; }
+    void add(const std::string& kind)
+    {
+        int i = (int) shells.size() + 1;
+        UtestShell* sh = kind == "ignored" ? (UtestShell*) new ScriptIgnoredShell(i) : (UtestShell*) new ScriptShell(i);
+        shells.push_back(sh);
+        reg.addTest(sh);
+    }
+};
+
+// one runAllTests with a fresh TestResult; bs[i] = what the i-th test of the list does in this run
+static bool run_once(Registry& R, std::vector<Behaviour>& bs)
+{
+    g_test = 0; g_qpos = 0;
+    size_t i = 0;
+    for (UtestShell* t = R.reg.getFirstTest(); t; t = t->getNext(), i++) {
+        Scripted* s = dynamic_cast<Scripted*>(t);
+        if (!s || i >= bs.size()) return false;
+        s->b = bs[i];
+    }
+    if (i != bs.size()) return false;
     StringBufferTestOutput output;
     {
         ProbeResult result(output);
         fflush(g_log);
-        reg.runAllTests(result);
-        fprintf(g_log, "{\"op\":\"end\",\"total\":%d,\"ran\":%d,\"failed\":%s}\n", (int) result.getFailureCount(), (int) result.getRunCount(),
-                result.isFailure() ? "true" : "false");
+        R.reg.runAllTests(result);
+        fprintf(g_log, "{\"op\":\"end\",\"total\":%d,\"ran\":%d,\"ign\":%d,\"failed\":%s}\n", (int) result.getFailureCount(), (int) result.getRunCount(),
+                (int) result.getIgnoredCount(), result.isFailure() ? "true" : "false");
     }
-    for (size_t i = 0; i < shells.size(); i++) delete shells[i];
     fflush(g_log);
+    return true;
 }
 
 int main(int argc, char** argv)
@@ -331,29 +375,35 @@ int main(int argc, char** argv)
     start_helper();
     bool tty = tty_stops_work();
 
-    int n = 0; std::vector<Behaviour> bs; bool started = false;
+    std::vector<Behaviour> bs; bool started = false;     // started: between `begin' and `end' (the script of one run)
+    Registry* R = NULL;
     std::string line;
     while (vh_readline(in, line)) {
         if (line.empty()) continue;
         std::vector<std::string> f = vh_split(line);
         while (f.size() < 4) f.push_back("");
         const std::string& op = f[0];
-        if (op == "reset") { fprintf(g_log, "{\"op\":\"reset\"}\n"); started = false; continue; }
-        if (op == "begin") {
-            n = atoi(f[1].c_str()); g_real = f[2] == "real"; bs.clear(); g_queue.clear(); g_testEnd.clear(); started = true;
-            fprintf(g_log, "{\"op\":\"begin\",\"n\":%d,\"tty\":%s}\n", n, tty ? "true" : "false");
+        if (op == "reset") { delete R; R = NULL; fprintf(g_log, "{\"op\":\"reset\"}\n"); started = false; continue; }
+        if (!R) R = new Registry();
+        if (!started && op == "addtest") { R->add(f[1]); fprintf(g_log, "{\"op\":\"addtest\",\"kind\":\"%s\"}\n", f[1] == "ignored" ? "ignored" : "plain"); }
+        else if (!started && op == "setsep") { R->reg.setRunTestsInSeperateProcess(); fprintf(g_log, "{\"op\":\"setsep\"}\n"); }
+        else if (!started && op == "setri") { R->reg.setRunIgnored(); fprintf(g_log, "{\"op\":\"setri\"}\n"); }
+        else if (!started && op == "begin") {
+            g_real = f[2] == "real"; bs.clear(); g_queue.clear(); g_testEnd.clear(); started = true;
+            fprintf(g_log, "{\"op\":\"begin\",\"n\":%d,\"tty\":%s}\n", (int) R->reg.countTests(), tty ? "true" : "false");
         }
-        else if (!started) { fprintf(g_log, "{\"op\":\"harness-error\",\"what\":\"call before begin\"}\n"); break; }
-        else if (op == "teststart") { Behaviour b; b.act = f[1].empty() ? "pass" : f[1]; b.arg = atoi(f[2].c_str()); b.place = f[3].empty() ? "body" : f[3]; bs.push_back(b); }
+        else if (!started) { fprintf(g_log, "{\"op\":\"harness-error\",\"what\":\"call outside a run\"}\n"); break; }
+        else if (op == "teststart") { Behaviour b; b.act = (f[1].empty() || f[1] == "any") ? (g_real ? "pass" : "any") : f[1]; b.arg = atoi(f[2].c_str()); b.place = f[3].empty() ? "body" : f[3]; bs.push_back(b); }
         else if (op == "fork") { Outcome o; o.kind = f[1]; o.arg = 0; g_queue.push_back(o); }
         else if (op == "wait") { Outcome o; o.kind = f[1]; o.arg = atoi(f[2].c_str()); g_queue.push_back(o); }
         else if (op == "endtest") g_testEnd.push_back(g_queue.size());
         else if (op == "end") {
-            if ((int) bs.size() != n) { fprintf(g_log, "{\"op\":\"harness-error\",\"what\":\"test count\"}\n"); break; }
-            run_execution(n, bs); started = false;
+            if (!run_once(*R, bs)) { fprintf(g_log, "{\"op\":\"harness-error\",\"what\":\"test count\"}\n"); break; }
+            started = false;
         }
         else { fprintf(g_log, "{\"op\":\"harness-error\",\"what\":\"unknown op\"}\n"); break; }
     }
+    delete R;
     fflush(g_log);
     fclose(g_log);
     stop_helper();
